@@ -193,9 +193,7 @@ func (f *File) Close() error {
 
 func OpenFile(name string, flag int, perm os.FileMode) (*File, error) {
 	mutating := flag&(os.O_CREATE|os.O_TRUNC) != 0
-	if mutating {
-		pre(name)
-	}
+	pre(name)
 	f, err := os.OpenFile(name, flag, perm)
 	if err != nil {
 		return nil, err
@@ -213,6 +211,7 @@ func OpenFile(name string, flag int, perm os.FileMode) (*File, error) {
 }
 
 func Open(name string) (*File, error) {
+	pre(name) // reads are system calls too: a lock held across a file read is observably held
 	f, err := os.Open(name)
 	if err != nil {
 		return nil, err
@@ -224,7 +223,12 @@ func Create(name string) (*File, error) {
 	return OpenFile(name, os.O_RDWR|os.O_CREATE|os.O_TRUNC, 0666)
 }
 
-func ReadFile(name string) ([]byte, error) { return os.ReadFile(name) }
+func ReadFile(name string) ([]byte, error) {
+	pre(name)
+	b, err := os.ReadFile(name)
+	pre(name) // open ... read/close: two scheduling points, like the two ends of the real call sequence
+	return b, err
+}
 
 // WriteFile performs os.WriteFile as its system calls: open(O_TRUNC), write..., close.
 func WriteFile(name string, data []byte, perm os.FileMode) error {
